@@ -62,7 +62,7 @@ def batch_models(ctx, problems):
             obj = Obj("object", param=ns)
 
             def hook(fn, args, kwargs, ns=ns, seen=seen):
-                if fn.endswith("._batch_call_watchers") and fn.startswith("parameterized"):
+                if fn.endswith("._batch_call_watchers"):
                     seen["flushes"].append(ns.attrs["_BATCH_WATCH"])
                     return None
                 return NotImplemented
@@ -88,6 +88,8 @@ def batch_models(ctx, problems):
                     desc, len(seen["flushes"]), want_flush, " (events queued before the failure stay queued)" if want_flush and fails else ""))
             elif seen["flushes"] and seen["flushes"][0] is not b0:
                 problems["C05"].append("%s: the flush runs before the batching flag is restored" % desc)
+                problems["C03"].append("%s: the flush runs while the batching flag is still raised: an assignment made by a callback of the flush is queued behind the remaining watchers instead of "
+                                       "being dispatched before that callback returns (and a callback that raises leaves the object in batching mode: later assignments reach no watcher)" % desc)
             if bool(fails) != (o.kind == "raise"):
                 problems["C05"].append("%s: outcome %s" % (desc, o.kind))
     return n
@@ -218,7 +220,7 @@ def edit_constant_model(ctx, problems):
         seen = {}
 
         def hook(fn, args, kwargs):
-            if fn == "parameterized.param.objects":
+            if fn.endswith(".param.objects") or fn.endswith(".objects"):
                 return kls if (args and args[0] is False) or kwargs.get("instance") is False else dict(kls, **inst)
             if fn == "type" and args and args[0] is obj:
                 return cls
